@@ -30,6 +30,7 @@ def run_case(seed, params=None):
     nitems = rng.randint(8, 30)
     gaps = [0, 0, D, D / 2, 2 * tr, tr, D + 2 * tr, 0.25, 0.1, 1, D - 0.25 if D > 0.25 else 0.25, 3 * D]
     style = rng.choice(("eager", "eager", "slow", "bursty", "stall"))
+    recirc = rng.random() < 0.3
 
     def producer(pid, n):
         yield env.timeout(rng.choice((0, 0, 0.25, D, D / 2)))
@@ -55,6 +56,13 @@ def run_case(seed, params=None):
             it = fl.get(tok)
             H.log("c", "get", it.id, env.now)
             k += 1
+            if recirc and rng.random() < 0.5:
+                # circulating carrier: the same object is loaded again into the same fleet
+                yield env.timeout(rng.choice((0, 0.25, 0.5, D)))
+                t2 = fl.reserve_put()
+                yield t2
+                fl.put(t2, it)
+                H.log("c", "reput", it.id, env.now)
             if style == "bursty" and k % 3 == 0:
                 yield env.timeout(rng.choice((1, 2, 4)))
 
@@ -71,7 +79,7 @@ def run_case(seed, params=None):
     res = summarize(mon, sh, H, env, exc)
     res["nontrivial"]["C14"] = bool(getattr(orc, "nontrivial", False))
     res["spec"] = {"engine": "E5", "seed": seed, "kind": "fleet", "cap": cap, "D": D, "transit": tr, "producers": nprod,
-                   "items": nitems, "consumer": style}
+                   "items": nitems, "consumer": style, "recirculating": recirc}
     return res
 
 
